@@ -680,3 +680,74 @@ Theorem zip_file_roundtrip c f dir D name pm d :
     lookup f' (D ++ [name]) = Some (NFile (N.land pm perm_mask) d) /\
     (forall k, is_prefix D k = false -> lookup f' k = lookup f k).
 Proof. intros Hn Hc Hd HD Hr. now apply (zip_file_in_section c f dir D Hd HD Hr). Qed.
+
+(** *** With [clear]: whatever was at the destination before *)
+
+Lemma prefixes_from_spec rest : forall pre q,
+  In q (prefixes_from pre rest) ->
+  is_prefix q (pre ++ rest) = true /\ (length q < length (pre ++ rest))%nat.
+Proof.
+  induction rest as [|x rest IH]; intros pre q H; [destruct H|].
+  cbn [prefixes_from] in H. destruct H as [<-|H].
+  - split; [apply is_prefix_app|]. rewrite app_length. cbn. lia.
+  - destruct (IH _ _ H) as [A B]. now rewrite <- app_assoc in A, B.
+Qed.
+
+Lemma file_on_the_way_dirs f rest : forall pre,
+  forallb (fun k => is_dir_node (lookup f k)) (prefixes_from pre rest) = true ->
+  file_on_the_way f pre rest = false.
+Proof.
+  induction rest as [|x rest IH]; intros pre H; [reflexivity|].
+  destruct rest as [|y rest]; [reflexivity|].
+  change (prefixes_from pre (x :: y :: rest)) with (pre :: prefixes_from (pre ++ [x]) (y :: rest)) in H.
+  cbn [forallb] in H. apply andb_true_iff in H as [_ H].
+  assert (Hd : is_dir_node (lookup f (pre ++ [x])) = true).
+  { change (prefixes_from (pre ++ [x]) (y :: rest))
+      with ((pre ++ [x]) :: prefixes_from ((pre ++ [x]) ++ [y]) rest) in H.
+    cbn [forallb] in H. now apply andb_true_iff in H as [H _]. }
+  change (file_on_the_way f pre (x :: y :: rest))
+    with (match lookup f (pre ++ [x]) with
+          | Some (NFile _ _) => true
+          | _ => file_on_the_way f (pre ++ [x]) (y :: rest)
+          end).
+  destruct (lookup f (pre ++ [x])) as [[pm d|pm]|]; cbn in Hd; try congruence; now apply IH.
+Qed.
+
+Lemma dest_ready_after_clear f D :
+  D <> [] ->
+  forallb (fun k => is_dir_node (lookup f k)) (proper_prefixes D) = true ->
+  dest_ready (remove_under f D) D.
+Proof.
+  intros HD Hanc. unfold dest_ready, dest_readyb. apply andb_true_iff. split; [apply andb_true_iff; split|].
+  - destruct D; [congruence|reflexivity].
+  - rewrite forallb_forall in Hanc |- *. intros q Hq. rewrite lookup_remove_under.
+    destruct (prefixes_from_spec D [] q Hq) as [A B]. cbn [app] in A, B.
+    assert (E : is_prefix D q = false).
+    { destruct (is_prefix D q) eqn:E; [|reflexivity]. exfalso.
+      apply is_prefix_spec in E as [r ->]. rewrite app_length in B. lia. }
+    rewrite E. now apply Hanc.
+  - unfold remove_under. rewrite forallb_forall. intros e He. apply filter_In in He as [_ He]. exact He.
+Qed.
+
+(** [UnzipDir(dir, r, true)] of [ZipDir]'s archive: the destination may hold
+    anything beforehand. *)
+Theorem zip_roundtrip_clear c f dir D t :
+  wf_tree t = true ->
+  forallb goodb (cwd c) = true ->
+  resolve (cwd c) dir = Some D ->
+  D <> [] -> ends_with_dot dir = false ->
+  forallb (fun k => is_dir_node (lookup f k)) (proper_prefixes D) = true ->
+  exists f',
+    unzip c f dir true (zip_dir t) = (XOk, f') /\
+    (forall r, lookup f' (D ++ r) = option_map (under_umask (umask c)) (lookup t r)) /\
+    (forall k, is_prefix D k = false -> lookup f' k = lookup f k).
+Proof.
+  intros Hwf Hc HD HDne Hdot Hanc.
+  assert (Hdir : dir <> []) by (intros ->; discriminate).
+  unfold unzip, remove_all. rewrite HD. destruct D as [|x D'] eqn:ED; [congruence|]. rewrite <- ED in *.
+  rewrite Hdot, (file_on_the_way_dirs f D [] Hanc).
+  destruct (zip_roundtrip c (remove_under f D) dir D t Hwf Hc Hdir HD (dest_ready_after_clear f D HDne Hanc))
+    as (f' & E & A & B).
+  exists f'. split; [exact E|]. split; [exact A|].
+  intros k Hk. rewrite (B k Hk), lookup_remove_under, Hk. reflexivity.
+Qed.
